@@ -126,7 +126,7 @@ class Evaluator:
             a, b = self.ev(e.left), self.ev(e.right)
             if isinstance(e.op, ast.MatMult):
                 return dot(a, b)
-            ops = {ast.Add: lambda x, y: x + y, ast.Sub: lambda x, y: x - y, ast.Mult: lambda x, y: x * y, ast.Div: lambda x, y: x / y}
+            ops = {ast.Add: lambda x, y: x + y, ast.Sub: lambda x, y: x - y, ast.Mult: lambda x, y: x * y, ast.Div: lambda x, y: x / y, ast.Pow: lambda x, y: x**y}
             f = ops.get(type(e.op))
             if f is None:
                 raise AnalysisError(f"{self.where}: operator {type(e.op).__name__}")
